@@ -118,6 +118,8 @@ def search(chk, broken):
     evals = 0
     signal.signal(signal.SIGALRM, _alarm)
     for _ in range(n):
+        if chk.over():
+            break
         cfg = limit_cfg(rng)
         calc = pbc.Calculator(_config=cfg)
         full = dict(pbc.interface_config.create_interface_config(cfg)._asdict())
